@@ -332,6 +332,16 @@ class Interp:
         full = _dotted(fn)
         if full in SAFE_ATTR_CALLS:
             return SAFE_ATTR_CALLS[full](*args, **kwargs)
+        if isinstance(fn, ast.Name) and fn.id == 'isinstance' and len(args) == 2 and 'isinstance' not in env:
+            kinds = args[1] if isinstance(args[1], tuple) and not (args[1] and args[1][0] == '#sym') else (args[1],)
+            for k in kinds:
+                if isinstance(k, tuple) and k and k[0] == '#sym':
+                    if isinstance(args[0], Obj) and args[0].cls is not None and k[1].kind == 'class' and \
+                            k[1].target in self.prog.mro(args[0].cls.qn):
+                        return True
+                elif isinstance(k, type) and isinstance(args[0], k):
+                    return True
+            return False
         if isinstance(fn, ast.Name) and fn.id in SAFE_BUILTINS and fn.id not in env and fn.id not in mod.syms:
             if fn.id in ('all', 'any', 'sorted', 'min', 'max', 'sum', 'list', 'tuple', 'set') and args and isinstance(args[0], list):
                 pass
